@@ -58,8 +58,13 @@ def main():
     open(os.path.join(VERIF, "seeded", "README.md"), "w").write("\n".join(out) + "\n")
 
     own = load("own_results.json")
+    for pat in ("harmless_0*.json", "harmless_fix.json"):  # later files override
+        for name, row in load(pat).items():
+            own.setdefault(name, {}).update(row)
     o2 = ["# Own mutants and harmless rewrites", "",
-          "`selftest/own/*.diff`: reverts of the `fix:` commits, small hand-made defects, and HARMLESS-* rewrites that keep every property true.", "",
+          "`selftest/own/*.diff`: reverts of the `fix:` commits, small hand-made defects, and HARMLESS-* rewrites that keep every property true;",
+          "`selftest/harmless/HARMLESS-agent-*.diff`: behaviour-preserving maintenance commits written by sub-agents (refactor / constant or strategy",
+          "cut-over / control-flow restructuring, three per property for eight properties). Legend as in seeded/README.md; HARMLESS rows should be all `·`.", "",
           "| change | " + " | ".join(c[1:] for c in checks) + " |", "|---|" + "---|" * len(checks)]
     for name in sorted(own):
         o2.append("| %s | %s |" % (name.replace(".diff", ""), " | ".join(cell(own[name].get(c)) for c in checks)))
